@@ -45,6 +45,13 @@ def _data(n_obs, V, dtype, const_cols=False):
     return d
 
 
+
+def _nb(x):
+    """bytes of a numeric array with every NaN in one canonical form (the sign bit / payload of a NaN is not a value)"""
+    x = np.asarray(x)
+    return np.where(np.isnan(x), np.nan, x).tobytes() if x.dtype.kind in 'fc' else x.tobytes()
+
+
 def gen_plan(rng, tier, index):
     big = tier == 'thorough'
     mode = rng.wpick([('geom', 3), ('rdm', 3), ('eval', 4), ('chunk', 0.25 if not big else 0.6)])
@@ -505,7 +512,7 @@ def execute(plan, ctx):
                           f'{len(out)} results for {len(reference)} centres (n_jobs={s["n_jobs"] if name == "sim" else 1})')
             return
         for i, (g, e) in enumerate(zip(out, reference)):
-            if g['voxel'] != e['voxel'] or g['evals'].tobytes() != e['evals'].tobytes():
+            if g['voxel'] != e['voxel'] or _nb(g['evals']) != _nb(e['evals']):
                 what = 'order' if g['voxel'] != e['voxel'] else 'values'
                 ctx.violation('sl_ref.eval', f'evaluate_models_searchlight:{what}:{name}',
                               f'result {i} is the evaluation of centre {g["voxel"]}, expected centre {e["voxel"]}'
